@@ -86,11 +86,19 @@ func (l *Locale) MarshalJSON() ([]byte, error) {
 // When [language.ValueError] is encountered, the containing tag will be set
 // to an empty value (language "und") and no error will be returned.
 // This state can be checked with the `l.Tag().IsRoot()` method.
-func (l *Locale) UnmarshalJSON(data []byte) error {
+func (l *Locale) UnmarshalJSON(data []byte) (err error) {
 	if len(data) == 0 || string(data) == "\"\"" {
 		return nil
 	}
-	err := json.Unmarshal(data, &l.tag)
+	// language.Tag.UnmarshalText does not recover from parser panics
+	// on certain malformed tags, as language.Parse does.
+	defer func() {
+		if r := recover(); r != nil {
+			l.tag = language.Tag{}
+			err = fmt.Errorf("oidc: malformed locale %s", data)
+		}
+	}()
+	err = json.Unmarshal(data, &l.tag)
 	if err == nil {
 		return nil
 	}
